@@ -120,6 +120,10 @@ func ruleFMT(r *Run, p string, doGrammar, doCounts, doHeader, doErr, doMagic, do
 		if doHeader || doCover {
 			ruleHeaderAndCoverage(r, p, k, doHeader, doCover)
 		}
+		if doHeader {
+			ruleHeaderPairing(r, p+".FMT3", k)
+			ruleCtorParamsImmutable(r, p+".FMT12", k)
+		}
 		if doErr {
 			ruleReadErrors(r, p+".FMT4", k)
 		}
